@@ -151,6 +151,21 @@ Section Ibc.
     bind (pay s who ModTransfer k t amt) (fun s1 =>
     pay (mint s1 ModTransfer k t amt) ModTransfer who k t amt).
 
+  (* HandlerIbcCall: the memo step of the hook *)
+  Definition memo_step (p : inpacket) (s1 : ist) : result ist :=
+    match ip_memo p with
+    | NoMemo | MemoText => Ok s1
+    | MemoBad => Err s1
+    | MemoCall fails v =>
+        let from := isender (ip_src p) (ip_sender p) in
+        if negb (has_acct s1 from) then Err s1         (* x/evm CallEVM: GetSequence of an unknown account *)
+        else if ibal s1 (from, AFx, 0) <? v then Err s1  (* the EVM refuses a call whose value the caller cannot pay *)
+        else
+          (* evmPacket.Value moves from the derived sender to the callee inside the call *)
+          let s2 := with_bal s1 (ladd (ladd (ibal s1) (from, AFx, 0) (- v)) (Callee, AFx, 0) v) in
+          if fails then Err (with_log s2 (EvCall from)) else Ok (with_log s2 (EvCall from))
+    end.
+
   (* middleware Keeper.OnRecvPacket *)
   Definition hook_recv (p : inpacket) (s : ist) : result ist :=
     let conv :=
@@ -171,19 +186,7 @@ Section Ibc.
           | _ => Err s1                                 (* no token pair under the voucher's name *)
           end)
       end in
-    bind conv (fun s1 =>
-    match ip_memo p with
-    | NoMemo | MemoText => Ok s1
-    | MemoBad => Err s1
-    | MemoCall fails v =>
-        let from := isender (ip_src p) (ip_sender p) in
-        if negb (has_acct s1 from) then Err s1         (* x/evm CallEVM: GetSequence of an unknown account *)
-        else if ibal s1 (from, AFx, 0) <? v then Err s1  (* the EVM refuses a call whose value the caller cannot pay *)
-        else
-          (* evmPacket.Value moves from the derived sender to the callee inside the call *)
-          let s2 := with_bal s1 (ladd (ladd (ibal s1) (from, AFx, 0) (- v)) (Callee, AFx, 0) v) in
-          if fails then Err (with_log s2 (EvCall from)) else Ok (with_log s2 (EvCall from))
-    end).
+    bind conv (memo_step p).
 
   (* through the ibc-go core cache rule *)
   Definition recv (p : inpacket) (s : ist) : ist * bool :=
